@@ -108,6 +108,7 @@ def make_cases(tier, seed, n_random=None, maxlen=None, long_n=None):
     doms = domains.grammar_domain(tier, seed, n_random=n_random)
     cases = []
     k = 0
+    n_ids = 0
     for name, g0 in doms:
         # damp every rule weight by 2: keeps the weights generic, makes every fixed point converge with ratio < 1/2
         g = g0.map_weights(lambda w: w / 2)
@@ -130,6 +131,13 @@ def make_cases(tier, seed, n_random=None, maxlen=None, long_n=None):
             cases.append(dict(kind="short", name=f"{name}~{vname}", g=gv, heap=heap, maxlen=bound(tier, gv, maxlen),
                               rename="id" if ident else ["tuple", "rev"][k % 2],
                               order=None if ident else common.perm(len(gv.rules), rng)))
+            if vname == "raw" and (n_ids < 40 or (tier != "quick" and k % 6 == 0)):
+                # token-id / byte vocabularies: terminals are the integers 0, 1, 2 - the parsers number their nonterminals with
+                # integers too, so a terminal must be recognised by the vocabulary, not by its type (seeded change C04-3)
+                n_ids += 1
+                ids = {a: j for j, a in enumerate(sorted(gv.V))}
+                gi = type(gv)(gv.S, frozenset(ids.values()), [(w, h, tuple(ids.get(y, y) for y in b)) for w, h, b in gv.rules])
+                cases.append(dict(kind="short", name=f"{name}~{vname}#ids", g=gi, heap="real", maxlen=bound(tier, gv, maxlen), rename="id", order=None))
     shapes = long_shapes()
     if tier == "quick":
         n = long_n or 115
@@ -313,7 +321,7 @@ def check_short(cx):
     if Zs > 0:
         out["keys"].append(sig(case["name"], case["rename"], case["heap"]))
     out["worst"] = cx.worst
-    if case["name"].split("~")[0] in ("palindrome", "null_unary_mix") and case["rename"] == "id":
+    if case["name"].split("~")[0] in ("palindrome", "null_unary_mix") and case["rename"] == "id" and not case["name"].endswith("#ids"):
         c = ("a",)
         out["sample"] = dict(grammar=bridge.fmt_grammar(g), backends=list(dists), contexts=len(cs), rel_tolerance=rel,
                              context=list(c), expected_p_next={t: _f(nw[c][t] / pw[c]) for t in Ve} if pw[c] > 0 else None)
